@@ -106,10 +106,11 @@ BinR(e) ==
     [] e.op = "r_field_stop" -> [ok |-> Avail >= 1 /\ Inp[pos + 1] = 0, n |-> 1]
     [] e.op \in {"r_list_begin", "r_set_begin"} ->
          \* as built: a count that cannot fit in the remaining input is rejected (>= 1 byte per element)
-         [ok |-> Avail >= 5 /\ Inp[pos + 1] = e.t /\ RdI(1, 2) = FromInt(e.cnt, 32) /\ e.cnt <= Avail - 5, n |-> 5]
+         \* (an asynchronous reader cannot know how much input remains: events carrying `async` are exempt from the bound)
+         [ok |-> Avail >= 5 /\ Inp[pos + 1] = e.t /\ RdI(1, 2) = FromInt(e.cnt, 32) /\ ("async" \in DOMAIN e \/ e.cnt <= Avail - 5), n |-> 5]
     [] e.op = "r_map_begin" ->
          [ok |-> Avail >= 6 /\ Inp[pos + 1] = e.kt /\ Inp[pos + 2] = e.vt /\ RdI(2, 2) = FromInt(e.cnt, 32)
-                 /\ 2 * e.cnt <= Avail - 6, n |-> 6]
+                 /\ ("async" \in DOMAIN e \/ 2 * e.cnt <= Avail - 6), n |-> 6]
     [] e.op \in {"r_struct_begin", "r_struct_end", "r_field_end", "r_list_end", "r_set_end", "r_map_end"} -> [ok |-> TRUE, n |-> 0]
 
 \* compact: [ok, r, n] with the returned values checked
@@ -128,10 +129,10 @@ CompactR(r, e) ==
     [] e.op = "r_struct_begin" -> RStructBegin(r)
     [] e.op = "r_struct_end" -> RStructEnd(r)
     [] e.op \in {"r_list_begin", "r_set_begin"} ->
-         LET q == RCollBegin(r, Win(6)) IN [ok |-> q.ok /\ q.t = e.t /\ q.cnt = e.cnt /\ q.cnt <= Avail - q.n, r |-> q.r, n |-> q.n]
+         LET q == RCollBegin(r, Win(6)) IN [ok |-> q.ok /\ q.t = e.t /\ q.cnt = e.cnt /\ ("async" \in DOMAIN e \/ q.cnt <= Avail - q.n), r |-> q.r, n |-> q.n]
     [] e.op = "r_map_begin" ->
          LET q == RMapBegin(r, Win(6)) IN
-         [ok |-> q.ok /\ q.kt = e.kt /\ q.vt = e.vt /\ q.cnt = e.cnt /\ 2 * q.cnt <= Avail - q.n, r |-> q.r, n |-> q.n]
+         [ok |-> q.ok /\ q.kt = e.kt /\ q.vt = e.vt /\ q.cnt = e.cnt /\ ("async" \in DOMAIN e \/ 2 * q.cnt <= Avail - q.n), r |-> q.r, n |-> q.n]
     [] e.op \in {"r_list_end", "r_set_end", "r_map_end"} -> RCollEnd(r)
 
 \* --- calls only EMITTED decoders make: the reader's own length methods and skip ------------------------------------
